@@ -45,7 +45,7 @@ func runC18(e *core.Env) {
 		r := core.NewRand(e.Seed, 18, uint64(i))
 		today := ref.Date{Y: 2024, M: r.Range(1, 12), D: r.Range(1, 28)}
 		d := gen.Document(r, gen.Opts{MaxRecs: 8, MinRecs: 1, MaxEntries: 5, Unicode: true, OpenRanges: 1, Tags: 2, Near: &today, NearSpread: r.PickInt(1, 3, 30), Hostile: r.Chance(1, 5),
-			MaxHours: r.PickInt(12, 30, 300), LookAlikes: r.Chance(1, 3)})
+			MaxHours: r.PickInt(12, 30, 300), LookAlikes: r.Chance(1, 3), TrailingBlank: r.Chance(1, 2)})
 		f := writeFile(e.Dir, "c18.klg", d.Text)
 		clock := obs.ClockAt(today, r.Intn(1440), 0)
 		if r.Chance(1, 4) {
